@@ -58,7 +58,10 @@ class World:
                                                "iteration": True})
         self.render_data = st.new("RenderData", {"finalized": z3.Bool("data_finalized0"), "render_cls": ClassV("MyRenderable"), "fin_calls": z3.IntVal(0)})
         self.renderable = st.new("MyRenderable", {"frame_count": self.N if definite else self.FrameCount.d["INDEFINITE"], "animated": True,
-                                                  "_frame": z3.Int("renderable_frame0")})
+                                                  "_frame": z3.Int("renderable_frame0"),
+                                                  # the renderable's OWN render size: unrelated to the size this iteration renders at
+                                                  # (set_render_size changes only the iteration's data)
+                                                  "render_size": size_rec(z3.Int("renderable_own_w"), z3.Int("renderable_own_h"))})
         self.pad = st.new("Padding", {"pid": z3.Int("pad0")})
         self.gen = st.new("generator", {"pc": "Y1", "closed": False})
         args0 = z3.Int("args0")
